@@ -259,6 +259,23 @@ fn crash_signature(status: &std::process::ExitStatus, stderr: &str, hang: bool) 
 }
 
 /// Execute tape in a fresh child process
+/// Processor time a child has used so far (user + system, from /proc): limits on a single run
+/// are measured in it, so that a child that gets no processor on a loaded machine is not taken
+/// for a hang; a wall-clock limit twelve times as long catches a run that sleeps for ever.
+fn child_cpu(pid: u32) -> Duration {
+    let Ok(stat) = std::fs::read_to_string(format!("/proc/{pid}/stat")) else { return Duration::ZERO };
+    // fields after the parenthesised command name: state is the 1st, utime the 12th, stime the 13th
+    let Some(rest) = stat.rsplit_once(')').map(|(_, rest)| rest) else { return Duration::ZERO };
+    let fields: Vec<&str> = rest.split_whitespace().collect();
+    let ticks: u64 = [11usize, 12].iter().filter_map(|i| fields.get(*i).and_then(|f| f.parse::<u64>().ok())).sum();
+    let hz = unsafe { libc::sysconf(libc::_SC_CLK_TCK) }.max(1) as u64;
+    Duration::from_millis(ticks * 1000 / hz)
+}
+
+fn overdue(pid: u32, started: Instant, limit: Duration) -> bool {
+    child_cpu(pid) > limit || started.elapsed() > limit * 12
+}
+
 pub fn exec_child(world: &World, prop: &str, tier: Tier, avoid: &[String], tape: &[u32], timeout: Duration) -> ChildOutcome {
     let mut cmd = Command::new(self_exe());
     cmd.arg("exec-tape")
@@ -294,7 +311,7 @@ pub fn exec_child(world: &World, prop: &str, tier: Tier, avoid: &[String], tape:
         match child.try_wait() {
             Ok(Some(status)) => break status,
             Ok(None) => {
-                if started.elapsed() > timeout {
+                if overdue(child.id(), started, timeout) {
                     hang = true;
                     let _ = child.kill();
                     break child.wait().expect("wait");
@@ -373,7 +390,7 @@ fn exec_index_child(world: &World, args: &CheckArgs, avoid: &[String], index: u6
         match child.try_wait() {
             Ok(Some(status)) => break status,
             Ok(None) => {
-                if started.elapsed() > Duration::from_secs(15) {
+                if overdue(child.id(), started, Duration::from_secs(15)) {
                     hang = true;
                     let _ = child.kill();
                     break child.wait().expect("wait");
